@@ -688,6 +688,63 @@ Proof.
       * intros fr Hnf HA. apply Hfr; [rewrite Sf; exact Hnf|exact HA].
 Qed.
 
+(* the same when the frame header has not been seen and is not in the prefix: the set may even be complete *)
+Lemma run_prefix2 n : (1 <= n <= 255)%nat -> forall A rest pre s,
+  good n pre s -> Forall jitem_ok A ->
+  (forall c, In c (pre ++ chunks_of A) -> ctotal c = N.of_nat n /\ 1 <= cseq c <= N.of_nat n /\ cseq c < 256) ->
+  NoDup (map cseq (pre ++ chunks_of A)) ->
+  ((length (pre ++ chunks_of A) < n)%nat \/ (js_found s = false /\ sofs_of A = [])) ->
+  exists s', js_run s (map enc (A ++ rest)) = js_run s' (map enc rest) /\ good n (pre ++ chunks_of A) s' /\
+    js_found s' = (js_found s || negb (match sofs_of A with [] => true | _ => false end)) /\
+    (sofs_of A = [] -> same_frame s s') /\
+    (forall fr, js_found s = false -> sofs_of A = [fr] -> frame_is s' fr).
+Proof.
+  intros Hn255. assert (Hn : (1 <= n)%nat) by lia.
+  induction A as [|j A IH]; intros rest pre s Hg Hok Hall Hnd Hlen.
+  - exists s. cbn [app chunks_of sofs_of] in *. rewrite app_nil_r in *. split; [reflexivity|]. split; [exact Hg|].
+    split; [rewrite orb_false_r; reflexivity|]. split; [intros _; repeat split|intros fr _ H; discriminate H].
+  - pose proof (Forall_inv Hok) as Hj. pose proof (Forall_inv_tail Hok) as Hok'.
+    destruct j as [it|t p h1 h2 w1 w2 more|c].
+    + cbn [app map enc js_run chunks_of sofs_of] in *. rewrite js_next_neutral by exact Hj. apply IH; assumption.
+    + cbn [app map enc js_run chunks_of sofs_of fst snd] in *. unfold js_next.
+      replace ((t =? 0xc0) || (t =? 0xc2)) with true by (cbn in Hj; lia). cbn [sof_data].
+      set (s1 := {| js_found := true; js_w := _ |}).
+      assert (Hg1 : good n pre s1) by exact Hg.
+      destruct Hlen as [Hlen|[_ Hx]]; [|discriminate Hx].
+      assert (Ea : js_all s1 = false).
+      { destruct (js_all s1) eqn:Ea; [|reflexivity]. destruct (js_all_good n pre s1 Hg1 Ea) as [_ Hl].
+        rewrite app_length in Hlen. lia. }
+      rewrite Ea. destruct (IH rest pre s1 Hg1 Hok' Hall Hnd (or_introl Hlen)) as (s' & Er & Hg' & Hf' & Hsame & Hfr).
+      exists s'. split; [exact Er|]. split; [exact Hg'|]. split; [rewrite Hf'; cbn; rewrite orb_true_r; reflexivity|].
+      split; [intros H; discriminate H|]. intros fr Hnf H. injection H as Hfr0 HA.
+      destruct (Hsame HA) as (Sf & Sw & Sh & Sb). unfold frame_is. rewrite Sf, Sw, Sh, Sb. subst fr. repeat split.
+    + cbn [app map enc js_run chunks_of sofs_of fst snd] in *.
+      assert (Hc : ctotal c = N.of_nat n /\ 1 <= cseq c <= N.of_nat n /\ cseq c < 256)
+        by (apply Hall; apply in_or_app; right; left; reflexivity).
+      destruct Hc as (Hct & Hcs & Hc256).
+      assert (Hnew : ~ In (cseq c) (map cseq pre)).
+      { rewrite map_app in Hnd. cbn [map] in Hnd. apply NoDup_remove_2 in Hnd. intros Hin. apply Hnd.
+        apply in_or_app. left. exact Hin. }
+      destruct (chunk_good n pre s c Hn Hg Hct Hcs Hnew) as [Hg1 (Sf & Sw & Sh & Sb)].
+      unfold js_next. change ((226 =? 192) || (226 =? 194)) with false. change (226 =? 226) with true. cbv iota.
+      rewrite js_app2_icc by lia.
+      replace (pre ++ c :: chunks_of A) with ((pre ++ [c]) ++ chunks_of A) in * by (rewrite <- app_assoc; reflexivity).
+      set (s1 := js_chunk s c) in *.
+      assert (Ea : js_all s1 = false).
+      { destruct Hlen as [Hlen|[Hnf _]].
+        - destruct (js_all s1) eqn:Ea; [|reflexivity]. destruct (js_all_good n _ s1 Hg1 Ea) as [_ Hl].
+          rewrite app_length in Hlen. lia.
+        - unfold js_all. rewrite Sf, Hnf. reflexivity. }
+      rewrite Ea, andb_false_r.
+      assert (Hlen' : (length ((pre ++ [c]) ++ chunks_of A) < n)%nat \/ (js_found s1 = false /\ sofs_of A = [])).
+      { destruct Hlen as [Hlen|[Hnf Hx]]; [left; exact Hlen|right; split; [rewrite Sf; exact Hnf|exact Hx]]. }
+      destruct (IH rest (pre ++ [c]) s1 Hg1 Hok' Hall Hnd Hlen') as (s' & Er & Hg' & Hf' & Hsame & Hfr).
+      exists s'. split; [exact Er|]. split; [exact Hg'|]. split; [rewrite Hf', Sf; reflexivity|].
+      split.
+      * intros HA. destruct (Hsame HA) as (A1 & A2 & A3 & A4). unfold same_frame. rewrite A1, A2, A3, A4, Sf, Sw, Sh, Sb. repeat split.
+      * intros fr Hnf HA. apply Hfr; [rewrite Sf; exact Hnf|exact HA].
+Qed.
+
 Lemma sofs_of_app a b : sofs_of (a ++ b) = sofs_of a ++ sofs_of b.
 Proof. induction a as [|j a IH]; [reflexivity|]. destruct j; cbn [app sofs_of]; rewrite ?IH; reflexivity. Qed.
 Lemma chunks_of_app a b : chunks_of (a ++ b) = chunks_of a ++ chunks_of b.
@@ -743,3 +800,84 @@ Example damaged_example :
         (jpeg_file (map enc ([JIcc c1] ++ [JIcc c1] ++ [JIcc c2; JSof 0xc0 x08 x00 x02 x00 x03 []])) [x00] []))
   = Ok {| md_format := JPEG; md_w := 3; md_h := 2; md_bits := 8; md_icc := IccErr |}.
 Proof. cbv zeta. split; [cbn; right; right; right; left; reflexivity|vm_compute; reflexivity]. Qed.
+
+(* ================= Part 5: where the loader stops when there is a profile (C18) ================= *)
+Lemma js_all_of_good n pre s : (1 <= n)%nat -> good n pre s -> length pre = n -> js_found s = true -> js_all s = true.
+Proof.
+  intros Hn (He & Hc & _ & H1) Hl Hf. unfold js_all. rewrite Hf. cbn [andb].
+  destruct pre as [|c0 pre']; [cbn in Hl; lia|].
+  destruct (H1 ltac:(discriminate)) as (sl & Esl & Lsl & _). rewrite Esl, Hc. unfold lenN. apply N.eqb_eq. lia.
+Qed.
+
+(* the items up to and including the one that completes "frame header seen and all n chunks seen" are
+   consumed; everything after it - further segments, SOS, the entropy-coded data - is left unread *)
+Theorem jpeg_icc_exit_point inflate (P R : list jitem) (x : jitem) (n : nat) fr sos body fuel :
+  let jits := P ++ [x] ++ R in
+  let cs := chunks_of (P ++ [x]) in
+  (1 <= n <= 255)%nat ->
+  Permutation (map cseq cs) (map N.of_nat (seq 1 n)) -> (forall c, In c cs -> ctotal c = N.of_nat n) ->
+  sofs_of (P ++ [x]) = [fr] -> (match x with JOther _ => False | _ => True end) ->
+  Forall jitem_ok jits -> Forall item_ok (map enc jits) -> seg_ok 0xda sos -> (length jits < fuel)%nat ->
+  run_pure inflate (jpeg_prog fuel) (jpeg_file (map enc jits) sos body)
+  = (Ok {| md_format := JPEG; md_w := fst (fst fr); md_h := snd (fst fr); md_bits := snd fr;
+           md_icc := icc_of_buffer (spec cs n) |},
+     concat (map item_bytes (map enc R)) ++ seg_bytes 0xda sos ++ body).
+Proof.
+  intros jits cs Hn Hperm Htot Hsof Hx Hjok Hok Hsos Hf.
+  rewrite jpeg_file_run by (try assumption; rewrite map_length; exact Hf).
+  assert (Hn1 : (1 <= n)%nat) by lia.
+  assert (Hnd : NoDup (map cseq cs)).
+  { eapply Permutation_NoDup; [apply Permutation_sym; exact Hperm|].
+    apply FinFun.Injective_map_NoDup; [intros a b; lia|apply seq_NoDup]. }
+  assert (Hrange : forall c, In c cs -> ctotal c = N.of_nat n /\ 1 <= cseq c <= N.of_nat n /\ cseq c < 256).
+  { intros c Hin. split; [auto|]. assert (Hi : In (cseq c) (map N.of_nat (seq 1 n))).
+    { eapply Permutation_in; [exact Hperm|]. apply in_map. exact Hin. }
+    apply in_map_iff in Hi. destruct Hi as (k & Ek & Hk). apply in_seq in Hk. lia. }
+  assert (Hlen : length cs = n).
+  { rewrite <- (map_length cseq). rewrite (Permutation_length Hperm), map_length. apply seq_length. }
+  unfold cs in *. rewrite chunks_of_app in *. rewrite sofs_of_app in Hsof.
+  unfold jits in Hjok. apply Forall_app in Hjok. destruct Hjok as [HokP HokxR].
+  assert (Hxok : jitem_ok x) by (apply Forall_app in HokxR; destruct HokxR as [H _]; exact (Forall_inv H)).
+  destruct x as [it|t p h1 h2 w1 w2 more|c]; [contradiction| |].
+  - (* the frame header completes it *)
+    cbn [chunks_of sofs_of app] in *. rewrite app_nil_r in *.
+    assert (HsP : sofs_of P = []).
+    { destruct (sofs_of P) as [|q l]; [reflexivity|]. cbn [app] in Hsof. injection Hsof as _ Hs2. destruct l; discriminate Hs2. }
+    rewrite HsP in Hsof. cbn [app] in Hsof. injection Hsof as Hfr.
+    destruct (run_prefix2 n Hn P ([JSof t p h1 h2 w1 w2 more] ++ R) [] js0 (good_js0 n) HokP Hrange Hnd
+                (or_intror (conj eq_refl HsP))) as (s' & Er & Hg' & _ & _ & _).
+    unfold jits. cbn [app] in Er |- *. rewrite Er. cbn [app map enc js_run fst snd] in *. unfold js_next.
+    replace ((t =? 0xc0) || (t =? 0xc2)) with true by (cbn in Hxok; lia). cbn [sof_data].
+    set (s1 := {| js_found := true; js_w := _ |}).
+    assert (Hg1 : good n (chunks_of P) s1) by exact Hg'.
+    rewrite (js_all_of_good n _ s1 Hn1 Hg1 Hlen eq_refl).
+    rewrite (finish_good n _ s1 Hn1 Hg1 Hlen eq_refl). subst fr. reflexivity.
+  - (* the last chunk completes it *)
+    cbn [chunks_of sofs_of app] in *. rewrite app_nil_r in Hsof.
+    assert (HlP : (length ([] ++ chunks_of P) < n)%nat) by (cbn [app]; rewrite app_length in Hlen; cbn [length] in Hlen; lia).
+    assert (HrP : forall c', In c' ([] ++ chunks_of P) -> ctotal c' = N.of_nat n /\ 1 <= cseq c' <= N.of_nat n /\ cseq c' < 256)
+      by (intros c' Hin; apply Hrange; apply in_or_app; left; exact Hin).
+    assert (HndP : NoDup (map cseq ([] ++ chunks_of P))).
+    { cbn [app]. rewrite map_app in Hnd. revert Hnd. generalize (map cseq (chunks_of P)) as l1.
+      induction l1 as [|a l1 IHl]; intros Hnd; [constructor|].
+      cbn [app] in Hnd. inversion Hnd as [|? ? Hnin Hnd']; subst. constructor.
+      - intros Hin. apply Hnin. apply in_or_app. left. exact Hin.
+      - apply IHl. exact Hnd'. }
+    destruct (run_prefix2 n Hn P ([JIcc c] ++ R) [] js0 (good_js0 n) HokP HrP HndP (or_introl HlP))
+      as (s' & Er & Hg' & _ & _ & Hfr').
+    unfold jits. cbn [app] in Er |- *. rewrite Er. cbn [app map enc js_run fst snd] in *.
+    destruct (Hrange c ltac:(apply in_or_app; right; left; reflexivity)) as (Hct & Hcs & Hc256).
+    assert (Hnew : ~ In (cseq c) (map cseq (chunks_of P))).
+    { rewrite map_app in Hnd. cbn [map] in Hnd. apply NoDup_remove_2 in Hnd. rewrite app_nil_r in Hnd. exact Hnd. }
+    destruct (chunk_good n (chunks_of P) s' c Hn1 Hg' Hct Hcs Hnew) as [Hg1 (Sf & Sw & Sh & Sb)].
+    pose proof (Hfr' fr eq_refl Hsof) as (F1 & F2 & F3 & F4).
+    unfold js_next. change ((226 =? 192) || (226 =? 194)) with false. change (226 =? 226) with true. cbv iota.
+    rewrite js_app2_icc by lia. set (s1 := js_chunk s' c) in *.
+    assert (Hf1 : js_found s1 = true) by (rewrite Sf; exact F1).
+    rewrite (js_all_of_good n _ s1 Hn1 Hg1 Hlen Hf1).
+    destruct Hg' as (He' & Hc' & _). destruct Hg1 as (He1 & Hc1 & Hg1').
+    rewrite He'. replace (js_got s1 =? js_got s') with false
+      by (rewrite Hc1, Hc'; unfold lenN; rewrite app_length; cbn [length]; lia).
+    cbn [negb andb].
+    rewrite (finish_good n _ s1 Hn1 (conj He1 (conj Hc1 Hg1')) Hlen Hf1). rewrite Sw, Sh, Sb, F2, F3, F4. reflexivity.
+Qed.
